@@ -59,6 +59,7 @@ def run(ctx, report):
                    "statistics (null_count absent, statistics absent), x read options (columns, categories, index, pandas_nulls); "
                    "non-trivial = >=1 row and (nulls or >=2 row groups or a non-default option); distinct by (dtype, variant, options)")
     own_append_case(ctx, report)
+    tz_index_case(ctx, report)
     nfiles = 20 if ctx.quick else 140
     reqs = []
     for fidx in range(nfiles):
@@ -364,6 +365,37 @@ def own_append_case(ctx, report):
         report.violation({**rec, "what": "; ".join(probs)[:400], "sig": "own-append"})
     report.case(("own-append",), True)
     shutil.rmtree(path, ignore_errors=True)
+
+
+def tz_index_case(ctx, report):
+    """a tz-aware datetime column as the row index (stored by the writer, or chosen with index=): the dtype the handle reports for it is
+    the dtype of the index read"""
+    import fastparquet
+    path = os.path.join(ctx.workdir("c17"), "tz_index.parq")
+    os.path.exists(path) and os.remove(path)
+    rec = {"check": "predict", "variant": "tz-index", "kinds": ["dt_tz"], "layout": "simple"}
+    ctx.crumb(rec)
+    probs = []
+    try:
+        ts = pd.to_datetime(["2021-03-04 10:00", "2021-03-05 11:30", "2021-07-01 00:00"]).tz_localize("Europe/Berlin")
+        df = pd.DataFrame({"v": [1, 2, 3], "t2": ts}, index=pd.DatetimeIndex(ts, name="t"))
+        fastparquet.write(path, df, write_index=True)
+        for how, kw in (("stored index", {}), ("index='t2'", {"index": "t2"})):
+            pf = fastparquet.ParquetFile(path)
+            name = "t" if not kw else "t2"
+            pred = dname(pf._dtypes()[name])
+            got = pf.to_pandas(**kw)
+            real = dname(got.index.dtype)
+            if pred != real:
+                probs.append(f"{how}: the handle reports {name}: {pred}, the index read has dtype {real}")
+            elif [str(x) for x in got.index] != [str(x) for x in ts]:
+                probs.append(f"{how}: index values {list(got.index)[:2]} differ from {list(ts)[:2]}")
+    except Exception as e:  # noqa
+        probs.append("raised " + canon_err(e) + " " + str(e)[:100])
+    if probs:
+        report.violation({**rec, "what": "; ".join(probs)[:400], "sig": "tz-index"})
+    report.case(("tz-index",), True)
+    os.path.exists(path) and os.remove(path)
 
 
 def search(ctx, report):
